@@ -1429,7 +1429,13 @@ func c08DupScan(c *Ctx, um *ssa.Function) {
 	}
 	found := false
 	detail := "no adjacent-pair comparison found"
-	eachInstr(um, func(in ssa.Instruction) {
+	// the scan may live in a private helper called only from unmarshal
+	eachRegion := func(fn func(ssa.Instruction)) {
+		for _, g := range c.region(um) {
+			eachInstr(g, fn)
+		}
+	}
+	eachRegion(func(in ssa.Instruction) {
 		bo, ok := in.(*ssa.BinOp)
 		if !ok || bo.Op != token.EQL {
 			return
